@@ -8,8 +8,8 @@
    The regular expression is mirrored from the END of the path ('$' anchors it, '.*' is greedy):
    "parquet", one arbitrary character, a run of decimal digits, one arbitrary character, "part".
    '.' does not match a newline, so a path holding a newline never matches (Python: None -> the
-   caller raises TypeError).  Not modelled: non-ASCII decimal digits (\d on str), the trailing-
-   newline allowance of '$'.                                                                   *)
+   caller raises TypeError) - except ONE trailing newline, before which '$' matches too.
+   Not modelled: non-ASCII text ('.' is one character, \d any Unicode decimal digit, on str).                                                                   *)
 From Coq Require Import NArith List Bool Arith Decimal DecimalN.
 From Pq Require Import Base.Bytes Dataset.FS.
 Import ListNotations.
@@ -65,8 +65,9 @@ Fixpoint span_digits (l : bytes) : bytes * bytes :=
   end.
 
 Definition part_id (p : path) : option N :=
-  if existsb (N.eqb 10) p then None else
-  match strip_prefix (List.rev s_parquet) (List.rev p) with
+  let r := match List.rev p with 10 :: r' => r' | r0 => r0 end in      (* '$' also matches before ONE trailing newline *)
+  if existsb (N.eqb 10) r then None else
+  match strip_prefix (List.rev s_parquet) r with
   | Some (_ :: r1) =>
     let '(drev, r2) := span_digits r1 in
     if is_prefix (List.rev s_part) r2 && Nat.leb 2 (length drev)
